@@ -419,23 +419,35 @@ def gen_eabf(r, k, T):
     w = r.choice([0.5, 1.0])
     nx = r.randint(3, 6)
     lo = V.dyadic(r, -2, 0, bits=2)
-    ex = ["extendedLagrangian on", "extendedFluctuation %r" % r.choice([0.5, 0.25]),
-          "extendedTimeConstant %r" % r.choice([50.0, 100.0])]
-    setup = ["dt 1.0", "temperature 300.0", "samestep 0", "includecv 1"]
+    tol = r.choice([0.5, 0.25])
+    period = r.choice([50.0, 100.0])
+    temp, dt = 300.0, 1.0
+    ex = ["extendedLagrangian on", "extendedFluctuation %r" % tol, "extendedTimeConstant %r" % period]
+    setup = ["dt %r" % dt, "temperature %r" % temp, "samestep 0", "includecv 1"]
     tags = ["eabf"]
+    X = {"dt": dt, "k": KB * temp / (tol * tol),
+         "mass": (KB * temp * period * period) / (4.0 * math.pi * math.pi * tol * tol),
+         "langevin": False, "gf": 1.0, "sigma": 0.0, "rlo": False, "lo": 0.0, "rup": False, "up": 0.0, "rnd": 0.0}
     if r.random() < 0.4:
-        ex += ["extendedLangevinDamping %r" % r.choice([1.0, 10.0])]
-        setup.append("gauss %r" % r.choice([0.5, -1.25]))
+        damp = r.choice([1.0, 10.0])
+        g = r.choice([0.5, -1.25])
+        ex += ["extendedLangevinDamping %r" % damp]
+        setup.append("gauss %r" % g)
         tags.append("langevin")
+        gamma = damp * 1.0e-3
+        X.update({"langevin": True, "gf": math.exp(-1.0 * dt * gamma), "rnd": g,
+                  "sigma": math.sqrt((1.0 - math.exp(-2.0 * gamma * dt * 1.0)) * X["mass"] * KB * temp)})
     else:
         ex += ["extendedLangevinDamping 0.0"]
     cfg = cv_block(0, width=w, lower=lo, upper=lo + nx * w, extra=ex)
     full = r.randint(1, 4)
-    B = ["abf {", "  name a", "  colvars v0", "  fullSamples %d" % full, "}"]
+    mn = r.randint(0, full - 1) if full > 1 else 0
+    B = ["abf {", "  name a", "  colvars v0", "  fullSamples %d" % full, "  minSamples %d" % mn, "}"]
     start = [lo + nx * w / 2]
     pos = walk(r, T, 1, lo=lo, hi=lo + nx * w, bits=5, stay=0.1, start=start)
+    M = {"x": X, "lower": lo, "width": w, "nx": nx, "full": full, "min": mn}
     return {"fam": "eabf", "tags": tags, "sigtags": [], "natoms": 1, "setup": setup, "config": cfg + B, "it0": r.choice([0, 0, 3]),
-            "pos": pos, "ef": forces(r, T, 1), "show_tf": True, "tf_lagged": True}
+            "pos": pos, "ef": forces(r, T, 1), "show_tf": True, "tf_lagged": True, "model": M}
 
 
 # ------------------------------------------------------------------------------------------------ analysis windows
